@@ -144,6 +144,15 @@ def deepcopy_model(x):
         return TopologyTok(x._numAtoms, x.name + "'")
     if isinstance(x, TArr):
         return x.derive(buf=None)
+    if isinstance(x, Obj):
+        # an interpreted object defining __deepcopy__ (the real Topology): copy.deepcopy calls it with a memo dict
+        from mdvc.pyinterp import CURRENT_INTERP
+
+        try:
+            x.cls.lookup("__deepcopy__")
+        except KeyError:
+            raise Unsupported("deepcopy of an object without __deepcopy__")
+        return CURRENT_INTERP[-1].call_method(x, "__deepcopy__", [{}], {})
     raise Unsupported("deepcopy of this value")
 
 
